@@ -16,8 +16,8 @@ from mc import common, cache, fsx
 from mc.common import Stats
 
 CLOCK0 = 1500000000
-SIBLING = {'A': 'A2', 'A2': 'A', 'B': 'A', 'C': 'V', 'V': 'C', 'L': 'L2', 'L2': 'L'}
-OTHER = {'A': 'B', 'A2': 'B', 'B': 'A2', 'C': 'A', 'V': 'A', 'L': 'A', 'L2': 'A'}
+SIBLING = {'A': 'A2', 'A2': 'A', 'B': 'A', 'C': 'V', 'V': 'C', 'L': 'L2', 'L2': 'L', 'U': 'U2', 'U2': 'U'}
+OTHER = {'A': 'B', 'A2': 'B', 'B': 'A2', 'C': 'A', 'V': 'A', 'L': 'A', 'L2': 'A', 'U': 'A', 'U2': 'A'}
 
 
 def init_states(tier):
@@ -60,6 +60,12 @@ def crash_shard(shard, nshards, payload):
     for d1, opt in decls:
         for iname, how in init_states(tier).items():
             combos.append((d1, opt, iname, how))
+    if not payload.get('o'):
+        # a declaration whose field names are not ascii (what is written must be what is read back), from an empty directory and
+        # from one that already holds its module
+        for iname, how in init_states(tier).items():
+            if tier == 'thorough' or iname in ('empty', 'module(same)+pyc'):
+                combos.append(('U', 'def', iname, how))
     scratch = common.new_scratch_dir('c16c')
     cache.write_source(scratch)
     job = 0
@@ -403,7 +409,7 @@ def run(tier):
         'pairs_where_the_schedule_cap_was_hit': capped, 'real_process_replays': st.n.get('real_replays', 0),
         'schedules_replayed_with_two_real_processes': st.n.get('real_schedule_replays', 0),
         'real_process_histories_with_warnings_as_errors': st.n.get('werror_histories', 0),
-        'rule': 'crash: a definition is killed before every interposed file-system step and after every character of every write (%s) from %d initial '
+        'rule': 'crash (declarations A, V and one with non-ascii field names): a definition is killed before every interposed file-system step and after every character of every write (%s) from %d initial '
                 'cache states; every one of those steps is also made to FAIL (no space left on device; thorough: permission denied too) instead of the process dying there; '
                 'from every distinct resulting directory a fresh process defines the same / the same-length sibling / another declaration; '
                 'interleavings: depth-first search over all schedules of the file-system steps of two defining processes with <=1 clock tick, pruned by a '
